@@ -195,9 +195,17 @@ type Script struct {
 	cmds  []string
 	decl  map[string]bool
 	fresh int
+	defOf map[int]string // command index -> symbol it defines (conservative extension)
 }
 
-func newScript() *Script { return &Script{decl: map[string]bool{}} }
+func newScript() *Script { return &Script{decl: map[string]bool{}, defOf: map[int]string{}} }
+
+// AssertDef asserts (= name term) where name is a fresh constant: the
+// assertion only matters to queries that mention name.
+func (s *Script) AssertDef(name, term string) {
+	s.defOf[len(s.cmds)] = name
+	s.cmds = append(s.cmds, "(assert "+sEq(name, term)+")")
+}
 
 func (s *Script) Declare(name, sort string) string {
 	if s.decl[name] {
@@ -241,7 +249,7 @@ func (s *Script) Define(prefix, sort, term string) string {
 		return term
 	}
 	n := s.Fresh(prefix, sort)
-	s.Assert(sEq(n, term))
+	s.AssertDef(n, term)
 	return n
 }
 
@@ -284,7 +292,7 @@ func (s *Script) render(n int, hyp []string, goal string, getvals []string, cone
 	cmds := s.cmds[:n]
 	var keep []bool
 	if cone {
-		keep = coneOfInfluence(cmds, append(append([]string{}, hyp...), goal))
+		keep = coneOfInfluence(cmds, append(append([]string{}, hyp...), goal), s.defOf)
 	} else {
 		keep = make([]bool, len(cmds))
 		for i := range keep {
@@ -330,7 +338,7 @@ func (s *Script) render(n int, hyp []string, goal string, getvals []string, cone
 	return b.String()
 }
 
-var smtBuiltin = map[string]bool{"select": true, "store": true, "seq.len": true, "seq.nth": true, "str.len": true, "ite": true, "true": true, "false": true}
+var smtBuiltin = map[string]bool{"select": true, "store": true, "seq.len": true, "seq.nth": true, "as": true, "const": true, "Array": true, "Int": true, "String": true, "Bool": true, "str.len": true, "ite": true, "true": true, "false": true}
 
 var symRe = regexp.MustCompile(`[A-Za-z_][A-Za-z0-9_!.$]*`)
 
@@ -353,7 +361,7 @@ func symbolsOf(s string) []string {
 // coneOfInfluence keeps every declaration whose symbol is needed and every
 // assertion that mentions at least one needed non-builtin symbol; needed
 // symbols grow transitively through kept assertions.
-func coneOfInfluence(cmds []string, roots []string) []bool {
+func coneOfInfluence(cmds []string, roots []string, defOf map[int]string) []bool {
 	type info struct {
 		syms   []string
 		isDecl bool
@@ -388,6 +396,35 @@ func coneOfInfluence(cmds []string, roots []string) []bool {
 			}
 		}
 	}
+	// closure of a fact's symbols through definitions (a fact about a defined
+	// name is relevant when the definition mentions something relevant)
+	defSyms := map[string][]string{}
+	for i, d := range defOf {
+		if i < len(cmds) {
+			defSyms[d] = infos[i].syms
+		}
+	}
+	closure := make([]map[string]bool, len(cmds))
+	for i := range cmds {
+		if infos[i].isDecl || len(infos[i].syms) == 0 {
+			continue
+		}
+		if _, isDef := defOf[i]; isDef {
+			continue
+		}
+		cl := map[string]bool{}
+		stack := append([]string{}, infos[i].syms...)
+		for len(stack) > 0 {
+			y := stack[len(stack)-1]
+			stack = stack[:len(stack)-1]
+			if cl[y] {
+				continue
+			}
+			cl[y] = true
+			stack = append(stack, defSyms[y]...)
+		}
+		closure[i] = cl
+	}
 	keep := make([]bool, len(cmds))
 	changed := true
 	for changed {
@@ -397,10 +434,15 @@ func coneOfInfluence(cmds []string, roots []string) []bool {
 				continue
 			}
 			hit := false
-			for _, y := range infos[i].syms {
-				if need[y] {
-					hit = true
-					break
+			if d, isDef := defOf[i]; isDef {
+				// a definition is pulled in only by demand for the symbol it defines
+				hit = need[d]
+			} else {
+				for y := range closure[i] {
+					if need[y] {
+						hit = true
+						break
+					}
 				}
 			}
 			if hit {
